@@ -26,6 +26,8 @@ pub struct RelCase {
     /// 0 label, 1 pc-relative, 2 label+k, 3 label-k
     pub spelling: u8,
     pub k: u8,
+    /// 0 none, 1 ATtiny20 (reduced core: one-word lds/sts, no jmp), 2 ATmega8 (no jmp), 3 ATmega2560
+    pub dev: u8,
     pub style: Style,
 }
 
@@ -55,7 +57,9 @@ pub struct Shape {
 
 /// Filler items totalling exactly `total` words.  `allow_org`: an `.org` gap may be used (its
 /// absolute target is computed from `start`).
-fn filler(recipe: &[u8], total: i64, start: i64, shape: &mut Shape) -> Vec<Ln> {
+fn filler(recipe: &[u8], total: i64, start: i64, shape: &mut Shape, dev: u8) -> Vec<Ln> {
+    let avr8l = dev == 1;
+    let no_jmp = dev == 1 || dev == 2;
     let mut out = vec![];
     let mut left = total;
     let mut pos = start;
@@ -65,13 +69,26 @@ fn filler(recipe: &[u8], total: i64, start: i64, shape: &mut Shape) -> Vec<Ln> {
         }
         let (st, size): (St, i64) = match r % 8 {
             0 | 1 => (St::Ins("nop".into(), vec![]), 1),
-            2 if left >= 2 => {
+            2 if left >= 2 && !no_jmp => {
                 shape.two_word = true;
-                (St::Ins("jmp".into(), vec![Opnd::Ex(E::Num(0x1234 + *r as i64))]), 2)
+                (St::Ins(if r & 8 == 0 { "jmp" } else { "call" }.into(), vec![Opnd::Ex(E::Num(0x1234 + *r as i64))]), 2)
             }
-            3 if left >= 2 => {
+            2 | 3 if avr8l => {
+                // reduced core: lds/sts are one-word instructions
                 shape.two_word = true;
-                (St::Ins("lds".into(), vec![Opnd::Reg(r % 32), Opnd::Ex(E::Num(0x60 + *r as i64))]), 2)
+                if r & 16 == 0 {
+                    (St::Ins("lds".into(), vec![Opnd::Reg(16 + r % 16), Opnd::Ex(E::Num(0x40 + (*r as i64 % 128)))]), 1)
+                } else {
+                    (St::Ins("sts".into(), vec![Opnd::Ex(E::Num(0x40 + (*r as i64 % 128))), Opnd::Reg(16 + r % 16)]), 1)
+                }
+            }
+            2 | 3 if left >= 2 => {
+                shape.two_word = true;
+                if r & 16 == 0 {
+                    (St::Ins("lds".into(), vec![Opnd::Reg(r % 32), Opnd::Ex(E::Num(0x60 + *r as i64))]), 2)
+                } else {
+                    (St::Ins("sts".into(), vec![Opnd::Ex(E::Num(0x60 + *r as i64)), Opnd::Reg(r % 32)]), 2)
+                }
             }
             4 => {
                 // odd-length .db: 1 or 3 bytes -> 1 or 2 words
@@ -123,6 +140,10 @@ pub fn build(c: &RelCase) -> Built {
     let m = ks[c.kind % ks.len()].clone();
     let mut shape = Shape::default();
     let mut prog: Vec<Ln> = vec![];
+    let devname = ["", "ATtiny20", "ATmega8", "ATmega2560"][c.dev as usize % 4];
+    if !devname.is_empty() {
+        prog.push(Ln::st(St::Device(devname.to_string())));
+    }
     // `alt0` at the very beginning, `alt1` at the very end: anchors for the label±k spellings
     prog.push(Ln::label("alt0"));
     let p = 1 + c.prefix as i64 % 40;
@@ -146,7 +167,7 @@ pub fn build(c: &RelCase) -> Built {
         addr = start;
         ins_index = prog.len();
         prog.push(Ln::st(mk_ins(E::sym("tgt"))));
-        prog.extend(filler(&c.filler, c.d, start + 1, &mut shape));
+        prog.extend(filler(&c.filler, c.d, start + 1, &mut shape, c.dev));
         target = addr + 1 + c.d;
         prog.push(Ln::with_label("tgt", St::Ins("nop".into(), vec![])));
     } else {
@@ -154,7 +175,7 @@ pub fn build(c: &RelCase) -> Built {
         let f = -c.d - 1;
         target = start;
         prog.push(Ln::label("tgt"));
-        prog.extend(filler(&c.filler, f, start, &mut shape));
+        prog.extend(filler(&c.filler, f, start, &mut shape, c.dev));
         addr = start + f;
         ins_index = prog.len();
         prog.push(Ln::st(mk_ins(E::sym("tgt"))));
@@ -264,24 +285,36 @@ fn distances(lim: i64) -> Vec<i64> {
         v.push(lim - 1 + x);
         v.push(-lim + x);
     }
+    // distances congruent to reachable ones modulo the field size and modulo 2^8 / 2^16
+    // (a truncating cast or a missing range check makes them look reachable)
+    for base in [0, 1, -1, lim - 1, -lim] {
+        for m in [2 * lim, 4 * lim, 256, 65536, 131072] {
+            v.push(base + m);
+            v.push(base - m);
+        }
+    }
     v
 }
 
 pub fn rel_case() -> impl Strategy<Value = RelCase> {
-    (0usize..22, 0u8..8, 0u8..10, -4000i64..4000, any::<u8>(), proptest::collection::vec(any::<u8>(), 0..12), 0u8..4, any::<u8>(), gen::style()).prop_map(|(kind, s, near_far, off, prefix, filler, spelling, k, style)| {
+    (0usize..22, 0u8..8, 0u8..11, -4000i64..4000, any::<u8>(), proptest::collection::vec(any::<u8>(), 0..12), 0u8..4, any::<u8>(), gen::style(), 0u8..8).prop_map(|(kind, s, near_far, off, prefix, filler, spelling, k, style, dev)| {
         let ks = kinds();
         let lim = limit(&ks[kind % ks.len()]);
         let d = match near_far {
             0..=2 => (if off < 0 { -lim } else { lim - 1 }) + off % 6,
             3..=7 => off % lim,
-            _ => off % (lim + 300),
+            8 | 9 => off % (lim + 300),
+            _ => (off % lim) + [2 * lim, -2 * lim, 256, -256, 65536, -65536][(off.unsigned_abs() % 6) as usize],
         };
-        RelCase { kind, s, d, prefix, filler, spelling, k, style }
+        // devices with small flash only for distances that fit
+        let dev = if dev >= 4 { 0 } else { dev };
+        let dev = if dev == 1 && d.abs() > 800 { 0 } else if dev == 2 && d.abs() > 3500 { 0 } else { dev };
+        RelCase { kind, s, d, prefix, filler, spelling, k, dev, style }
     })
 }
 
 pub fn run(ctx: &Ctx) -> Result<Ev, String> {
-    let opts = ModelOpts { devices: vec![] };
+    let opts = ModelOpts { devices: model::model_devices() };
     // deterministic part: every kind × boundary distances × 4 fillers × 4 spellings
     let mut det: Vec<RelCase> = vec![];
     let fillers: Vec<Vec<u8>> = vec![vec![], vec![2, 4, 0, 3], vec![12, 5, 7, 2, 44], vec![6, 3, 4 | 8, 1]];
@@ -289,7 +322,8 @@ pub fn run(ctx: &Ctx) -> Result<Ev, String> {
         let lim = limit(&kinds()[kind]);
         for d in distances(lim) {
             for (fi, f) in fillers.iter().enumerate() {
-                det.push(RelCase { kind, s: (kind % 8) as u8, d, prefix: (3 + fi * 5) as u8, filler: f.clone(), spelling: (fi + d.unsigned_abs() as usize) as u8 % 4, k: (fi * 3) as u8, style: Style::CANON });
+                let dev = if d.abs() < 700 { (fi % 4) as u8 } else { 0 };
+                det.push(RelCase { kind, s: (kind % 8) as u8, d, prefix: (3 + fi * 5) as u8, filler: f.clone(), spelling: (fi + d.unsigned_abs() as usize) as u8 % 4, k: (fi * 3) as u8, dev, style: Style::CANON });
             }
         }
     }
